@@ -63,6 +63,7 @@ AppVersionMC(e) == <<49, 46, 50>>    \* "1.2"
 StartsMC(st, rg) == IF rg = <<>> THEN StartsReg0(st)
                     ELSE IF "app" \in Sel THEN {1} \X TextCache[<<"app", LenOf("app", 1, st)>>] ELSE {}
 RegNone == <<>>
+DirMC(e, path) == [known |-> FALSE, isdir |-> FALSE, ents |-> <<>>]      \* no directory fixtures in the bounded model
 RegMC == << [name |-> <<97, 49>>, kind |-> 0], [name |-> <<97, 50>>, kind |-> 1], [name |-> <<97, 51>>, kind |-> 2] >>      \* a1 a2 a3
 StoreBound == Len(store) <= 2
 ObsEmit(op, args, ret, post) ==
